@@ -30,6 +30,7 @@ SEMANTIC = [
     "unreachable_unchecked",
     "cannot show invariant holds",
     "possible out of bounds",
+    "requires not satisfied",
 ]
 NOISE = ["aborting due to", "not all errors may have been reported", "verification results"]
 
@@ -205,9 +206,56 @@ def run_group(group, repo="/repo", extra_args=None, keep=False, seed=None):
         res["status"] = "failed"
     else:
         res["status"] = "ok"
-    if not keep:
-        pass
+    if res["status"] == "ok":
+        vac = _vacuity(group, repo, tpath, cmd)
+        res["vacuity"] = vac
+        if vac["vacuous"] or vac.get("error"):
+            res["status"] = "undecided"
+            res["reason"] = ("vacuous precondition (an `assert(false)` placed behind `requires` verified): %s" % ", ".join(vac["vacuous"])) if vac["vacuous"] \
+                else "vacuity probe run failed: %s" % vac["error"]
     return res
+
+
+def _vacuity(group, repo, tpath, cmd):
+    """Reachability check behind every precondition, on every run: the group is extracted once
+    more with `proof { assert(false); }` at the start of the body of each verified function that
+    has a `requires`; each of these assertions must FAIL.  One that verifies means the
+    precondition is contradictory and everything proved under it is vacuous."""
+    out = os.path.join(WORK, group + "_vacuity.rs")
+    try:
+        text, linemap, meta = extract.extract(repo, tpath, vacuity=True)
+    except extract.AnchorLost as e:
+        return {"probed": 0, "vacuous": [], "error": "anchor-lost: %s" % e}
+    probed = meta["probed"]
+    if not probed:
+        return {"probed": 0, "vacuous": []}
+    open(out, "w").write(text)
+    c2 = [out if a.endswith(group + ".rs") else a for a in cmd]
+    p = subprocess.run(c2, cwd=WORK, capture_output=True, text=True)
+    probe_lines = set(i + 1 for i, l in enumerate(text.split("\n")) if "VACUITY-PROBE" in l)
+    failed_at = set()
+    for ln in p.stderr.splitlines():
+        ln = ln.strip()
+        if not ln.startswith("{"):
+            continue
+        try:
+            d = json.loads(ln)
+        except ValueError:
+            continue
+        if d.get("level") == "error" and "assertion failed" in d.get("message", ""):
+            for sp in d.get("spans", []):
+                if sp["line_start"] in probe_lines:
+                    failed_at.add(sp["line_start"])
+    regions = meta["fn_regions"]
+    vacuous = []
+    for (ident, a, b) in regions:
+        if ident in probed:
+            mine = [l for l in probe_lines if a <= l <= b]
+            if mine and not any(l in failed_at for l in mine):
+                vacuous.append(ident)
+    if len(failed_at) == 0 and probed and "verification-results" not in p.stdout:
+        return {"probed": len(probed), "vacuous": [], "error": "no probe failed (verus did not run?): " + p.stderr[-300:]}
+    return {"probed": len(probed), "vacuous": vacuous}
 
 
 if __name__ == "__main__":
